@@ -6,6 +6,9 @@ package main
 //	1702  (view (incl...) (excl...) reset)      same through fsutil.NewFilterFS (optionally WithHardlinkReset);
 //	                                            output also carries the filtered listing of an independent walk
 //	1703  (view)                                WriteTar -> own extractor into WorkDir -> SnapshotRaw
+//	1704  (view (mapexcl...) (incl...) (excl...)) view materialised on disk; fsutil.NewFS(dir) -> NewFilterFS with a
+//	                                            Map function excluding the listed paths (+ patterns) -> WriteTar;
+//	                                            output (snapshot listed-paths archive-result pattern-table)
 //
 // archive result:  (#0 (member...) trailer-ok) | (#1 completed-callbacks) WriteTar error
 //
@@ -37,6 +40,7 @@ func init() {
 	kinds[0x1701] = run1701
 	kinds[0x1702] = run1702
 	kinds[0x1703] = run1703
+	kinds[0x1704] = run1704
 	props["C17"] = genC17
 }
 
@@ -257,6 +261,186 @@ func run1702(in Sx) (out Sx) {
 	// is the known walk/Open disagreement of moby/patternmatcher (C10's table, see c10.go)
 	pt := pmatchTable(append(append([]string{}, incl...), excl...), withPrefixes(viewPaths(roots)))
 	return L(L(listing...), res, L(pt...))
+}
+
+// ---- kind 1704: the real on-disk walker under a filter with a Map table ---------------------
+
+func c17DiskFiltered(root string, mexcl map[string]bool, incl, excl []string) (fsutil.FS, error) {
+	base, err := fsutil.NewFS(root)
+	if err != nil {
+		return nil, err
+	}
+	opt := &fsutil.FilterOpt{Map: func(p string, _ *types.Stat) fsutil.MapResult {
+		if mexcl[p] {
+			return fsutil.MapResultExclude
+		}
+		return fsutil.MapResultKeep
+	}}
+	if len(incl) > 0 {
+		opt.IncludePatterns = incl
+	}
+	if len(excl) > 0 {
+		opt.ExcludePatterns = excl
+	}
+	return fsutil.NewFilterFS(base, opt)
+}
+
+// output: (snapshot (path...) archive-result pattern-table) | (#9) patterns rejected | (#fffd msg) set-up
+// failed | (#ffff msg) panic.  snapshot = independent lstat records with file contents (RawEntry.Sx),
+// taken before fsutil touches the directory.
+func run1704(in Sx) (out Sx) {
+	defer func() {
+		if r := recover(); r != nil {
+			out = L(N(0xffff), S(fmt.Sprint(r)))
+		}
+	}()
+	roots := SxView(in.L[0])
+	mexcl := map[string]bool{}
+	for _, p := range sxStrings17(in.L[1]) {
+		mexcl[p] = true
+	}
+	incl, excl := sxStrings17(in.L[2]), sxStrings17(in.L[3])
+	dir := WorkDir("c17f")
+	defer os.RemoveAll(dir)
+	root := filepath.Join(dir, "r")
+	if err := os.Mkdir(root, 0755); err != nil {
+		return L(N(0xfffd), S(err.Error()))
+	}
+	if err := Materialize(roots, root); err != nil {
+		return L(N(0xfffd), S(err.Error()))
+	}
+	raw, err := SnapshotRaw(root, true)
+	if err != nil {
+		return L(N(0xfffd), S(err.Error()))
+	}
+	snap := make([]Sx, len(raw))
+	var allPaths []string
+	for i, e := range raw {
+		snap[i] = e.Sx()
+		allPaths = append(allPaths, e.Path)
+	}
+	fs1, err := c17DiskFiltered(root, mexcl, incl, excl)
+	if err != nil {
+		return L(N(9))
+	}
+	var listed []Sx
+	err = fs1.Walk(context.Background(), "/", func(p string, d gofs.DirEntry, err error) error {
+		if err != nil {
+			return err
+		}
+		listed = append(listed, S(p))
+		return nil
+	})
+	if err != nil {
+		return L(N(0xfffd), S("independent walk: "+err.Error()))
+	}
+	fs2, err := c17DiskFiltered(root, mexcl, incl, excl)
+	if err != nil {
+		return L(N(9))
+	}
+	res, _, _ := archiveResult(fs2)
+	pt := pmatchTable(append(append([]string{}, incl...), excl...), withPrefixes(allPaths))
+	return L(L(snap...), L(listed...), res, L(pt...))
+}
+
+// c17AddLinkGroup puts a hard-link group of 2-4 names with non-empty content into the view (all names in
+// one directory, or the later names in a directory created for them at the end of the root) and returns the
+// paths of its names in walk order.  Kids stay sorted bytewise, so the first name is materialised first.
+func c17AddLinkGroup(r *Rng, roots []*MNode, tag string) ([]*MNode, []string) {
+	size := Pick(r, []int{1, 5, 511, 512, 513, 4096, 40000, 80000})
+	content := fillContent(r, size)
+	st := &types.Stat{Mode: uint32(Pick(r, []os.FileMode{0644, 0600, 0755, 0444 | os.ModeSetuid})), Uid: uint32(r.Intn(3)) * 500,
+		Gid: uint32(r.Intn(2)) * 7, Size: int64(size), ModTime: 1500000000_000000000 + int64(r.Intn(1000000))*1000}
+	n := 2 + r.Intn(3)
+	// where: the root, or an existing directory of the root level
+	var dirs []*MNode
+	for _, k := range roots {
+		if os.FileMode(k.Stat.Mode).IsDir() {
+			dirs = append(dirs, k)
+		}
+	}
+	var parent *MNode
+	prefix := ""
+	if len(dirs) > 0 && r.Chance(50) {
+		parent = Pick(r, dirs)
+		prefix = parent.Name + "/"
+	}
+	used := map[string]bool{}
+	kidsOf := func() []*MNode {
+		if parent != nil {
+			return parent.Kids
+		}
+		return roots
+	}
+	for _, k := range kidsOf() {
+		used[k.Name] = true
+	}
+	for _, k := range roots {
+		used["/"+k.Name] = true
+	}
+	var names []string
+	for i := 0; len(names) < n && i < 26; i++ {
+		nm := fmt.Sprintf("%s%c%s", tag, 'a'+i, Pick(r, []string{"", "", ".txt", " x", "é"}))
+		if !used[nm] {
+			names = append(names, nm)
+			used[nm] = true
+		}
+	}
+	sort.Strings(names)
+	first := prefix + names[0]
+	var paths []string
+	var add []*MNode
+	for i, nm := range names {
+		s := st.CloneVT()
+		if i > 0 {
+			s.Linkname = first
+		}
+		add = append(add, &MNode{Name: nm, Stat: s, Content: content})
+		paths = append(paths, prefix+nm)
+	}
+	byName := func(l []*MNode) {
+		sort.Slice(l, func(i, j int) bool { return l[i].Name < l[j].Name })
+	}
+	// optionally move the last name into a new directory that sorts after everything at the root
+	var far *MNode
+	if len(add) >= 3 && r.Chance(40) && !used["/~"+tag] {
+		last := add[len(add)-1]
+		add = add[:len(add)-1]
+		far = &MNode{Name: "~" + tag, Stat: &types.Stat{Mode: uint32(os.ModeDir | 0755), ModTime: 1400000000_000000000}, Kids: []*MNode{last}}
+		paths[len(paths)-1] = far.Name + "/" + last.Name
+	}
+	if parent != nil {
+		parent.Kids = append(parent.Kids, add...)
+		byName(parent.Kids)
+	} else {
+		roots = append(roots, add...)
+	}
+	if far != nil {
+		roots = append(roots, far)
+	}
+	byName(roots)
+	// the far directory must come after the first name in materialisation order
+	if far != nil {
+		seen, okOrder := false, false
+		walkNodes(roots, func(p string, nd *MNode) {
+			if p == first {
+				seen = true
+			}
+			if p == paths[len(paths)-1] {
+				okOrder = seen
+			}
+		})
+		if !okOrder { // a root entry sorts after "~": keep the group without its far member
+			for i, k := range roots {
+				if k == far {
+					roots = append(roots[:i:i], roots[i+1:]...)
+					break
+				}
+			}
+			paths = paths[:len(paths)-1]
+		}
+	}
+	return roots, paths
 }
 
 // ---- extraction ---------------------------------------------------------------------------
@@ -673,6 +857,84 @@ func genC17(g *Gen) {
 		n, payload, links, special, _ := c17ViewStats(roots)
 		nt := out.L[0].U64() == 0 && n >= 3 && payload >= 1 && (links+special) >= 1
 		g.EmitWith(0x1703, in, out, nt, c17Class("disk", out))
+	}
+	// (e) the real on-disk walker under a filter whose Map function excludes entries AFTER they were stat'ed:
+	// hard-link groups of non-empty files whose first name in walk order is map-excluded (the next name must
+	// be promoted to the group's regular member with all its bytes), also combined with patterns
+	nDiskF := g.Vol(36, 700)
+	for i := 0; i < nDiskF; i++ {
+		roots := c17GenView(r, false)
+		if r.Chance(60) {
+			c17Mutate(r, roots, true)
+		}
+		walkNodes(roots, func(p string, n *MNode) {
+			if n.Stat.ModTime > 8589934591_000000000 {
+				n.Stat.ModTime = 1700000000_500000000
+			}
+		})
+		c17DiskSafe(roots)
+		syncLinks(roots)
+		var groups [][]string
+		ng := 1 + r.Intn(2)
+		for k := 0; k < ng; k++ {
+			var ps []string
+			roots, ps = c17AddLinkGroup(r, roots, fmt.Sprintf("hl%d", k))
+			groups = append(groups, ps)
+		}
+		var paths, files []string
+		walkNodes(roots, func(p string, n *MNode) {
+			paths = append(paths, p)
+			if !os.FileMode(n.Stat.Mode).IsDir() {
+				files = append(files, p)
+			}
+		})
+		mex := map[string]bool{}
+		firstExcluded := false
+		for _, ps := range groups {
+			switch k := r.Intn(10); {
+			case k < 7: // the first name
+				mex[ps[0]] = true
+				firstExcluded = firstExcluded || len(ps) >= 2
+			case k < 8 && len(ps) >= 3: // the first two names
+				mex[ps[0]], mex[ps[1]] = true, true
+				firstExcluded = true
+			case k < 9: // a later name only
+				mex[ps[len(ps)-1]] = true
+			}
+		}
+		if r.Chance(30) && len(files) > 0 {
+			mex[Pick(r, files)] = true
+		}
+		var mexl []Sx
+		for _, p := range paths {
+			if mex[p] {
+				mexl = append(mexl, S(p))
+			}
+		}
+		var incl, excl []Sx
+		if r.Chance(30) {
+			p := Pick(r, paths)
+			cand := Pick(r, []string{p, filepath.Dir(p) + "/*", "**/" + filepath.Base(p)})
+			if !strings.ContainsAny(strings.ReplaceAll(strings.ReplaceAll(cand, "**/", ""), "/*", ""), "*?[]\\\n!") &&
+				!strings.HasPrefix(cand, ".") && utf8.ValidString(cand) {
+				if r.Chance(70) {
+					excl = append(excl, S(cand))
+				} else {
+					incl = append(incl, S(cand))
+				}
+			}
+		}
+		in := L(ViewSx(roots), L(mexl...), L(incl...), L(excl...))
+		out := run1704(in)
+		nt := firstExcluded && len(out.L) == 4 && len(out.L[2].L) > 0 && out.L[2].L[0].U64() == 0 && len(out.L[1].L) >= 3
+		cls := "diskf-?"
+		if len(out.L) == 4 {
+			cls = c17Class("diskf", out.L[2])
+		}
+		if firstExcluded {
+			cls += "-first-excluded"
+		}
+		g.EmitWith(0x1704, in, out, nt, cls)
 	}
 }
 
